@@ -194,11 +194,12 @@ def eval_shard(path):
             pass
     if rc != 0:
         return path, None, None, out, time.time() - t0
-    parts = re.findall(r"=\s*\(tt,\s*(\[[^\]]*\])\s*\)", out, re.S)
-    if len(parts) != 2:
+    m = re.search(r"=\s*\(tt,\s*(\[.*?\])\s*\)\s*:\s*unit", out, re.S)
+    if not m:
         return path, None, None, out, time.time() - t0
-    fail = [int(x) for x in re.findall(r"(\d+)%N", parts[0])]
-    viol = [int(x) for x in re.findall(r"(\d+)%N", parts[1])]
+    rows = re.findall(r"\(\s*(\d+)%N\s*,\s*(true|false)\s*,\s*(true|false)\s*,\s*(\d+)%N\s*\)", m.group(1))
+    fail = [int(i) for i, a, b, c in rows if a == "false"]
+    viol = {int(i): int(c) for i, a, b, c in rows if b == "false"}
     return path, fail, viol, out, time.time() - t0
 
 
@@ -307,8 +308,8 @@ def check(prop, tier, seed, only=None, quiet=False):
             violations.append(("correspondence-broken", {"broken": "coqc evaluation of %s failed" % os.path.basename(path), "output": cout[-3000:]}))
             continue
         descr = json.load(open(path[:-2] + ".json"))
-        for i in viol:
-            viol_cases.append((descr[i], i in fail))
+        for i, cls in viol.items():
+            viol_cases.append((descr[i], i in fail, cls))
         for i in fail:
             if i not in viol:
                 fail_cases.append(descr[i])
@@ -318,11 +319,12 @@ def check(prop, tier, seed, only=None, quiet=False):
     kf = known_findings(prop)
     known_hit = {}
     unexplained = []
-    for d, also_corr in viol_cases:
-        cls = d.get("known_class") if isinstance(d, dict) else None
-        match = [f for f in kf if f.get("status") == "known" and cls and f["id"] == cls]
+    classes = reg.get("classes", {})
+    for d, also_corr, cls in viol_cases:
+        fid = classes.get(cls)
+        match = [f for f in kf if f.get("status") == "known" and fid and f["id"] == fid]
         if match and not also_corr:
-            known_hit.setdefault(match[0]["id"], (match[0], d))
+            known_hit.setdefault(fid, (match[0], d))
         else:
             unexplained.append(d)
     for fid, (f, d) in sorted(known_hit.items()):
